@@ -109,6 +109,9 @@ func run(c *h.Ctx, cs chain.Case) {
 		c.P.Class("denied")
 	}
 	off := firstOffending(cs)
+	if dh := chain.DecideIdentityHook(b); dh.Allowed && !r.R[7] {
+		c.Fail("C02/hook/widened-command-allowed", "ExecutionAllowedWithArgsHook returned nil although the command is widened\ninvocation cmd %q, link cmds %q", cs.Inv.Cmd, cmds(cs))
+	}
 	if d.Allowed && !r.R[7] {
 		where := "invocation vs leaf delegation"
 		if off > 0 {
